@@ -130,6 +130,16 @@ class VerifyService:
                     its_aid_length=0,
                     permissions=b'',
                 )
+            # IEEE 1609.2 §5.2.3.2.2: the generation time shall lie within the validity
+            # period of the signing certificate.
+            if not authorization_ticket.is_valid_at(header_info["generationTime"]):
+                return SNVERIFYConfirm(
+                    report=ReportVerify.INVALID_TIMESTAMP,
+                    certificate_id=authorization_ticket.as_hashedid8(),
+                    its_aid=b'',
+                    its_aid_length=0,
+                    permissions=b'',
+                )
             # §5.2: p2pcdLearningRequest and missingCrlIdentifier SHALL always be absent
             if "p2pcdLearningRequest" in header_info or "missingCrlIdentifier" in header_info:
                 return SNVERIFYConfirm(
